@@ -18,4 +18,8 @@ theorem holds_client_same_client (l : Launch) (alive : Bool) (s : State) (h : Re
     (c d : Nat) (hc : Out.okClient c ∈ s.outs) (hd : Out.okClient d ∈ s.outs) : c = d :=
   client_same_client _ facts_good l alive s h c d hc hd
 
+/-- the address a successful launching `Start` hands out IS the one it records for later calls (one assignment, the last
+statement before the return: C01's fact) — so the model's "okAddr of the recorded address" covers the first call too -/
+theorem first_start_returns_recorded_address : Facts.handshake.addressAssignedLast = true := by decide
+
 end GoPlugin.Instance.C19
